@@ -21,11 +21,16 @@ def gen_abstract(rng):
     n_in = rng.randint(1, 5)
     names = []
 
+    odd_names = rng.random() < 0.2
+
     def fresh():
         while True:
             n = rng.choice(("G", "n", "N", "net_", "w", "x")) + str(rng.randrange(60))
             if rng.random() < 0.2:
                 n = rng.choice(("a", "b", "sig", "q")) + "_" + str(rng.randrange(9))
+            if odd_names and rng.random() < 0.25:
+                # names other tools and this library's own Verilog reader produce: leading underscore, `$`, brackets
+                n = rng.choice(("_a", "_", "a$", "b$x", "n[", "y'", "w:", "\\e")) + str(rng.randrange(9)) + rng.choice(("", "]", "$"))
             if n not in names:
                 names.append(n)
                 return n
@@ -94,6 +99,14 @@ def render(rng, ab):
         for _ in range(rng.randint(0, 3)):
             lines.insert(rng.randrange(len(lines) + 1), "")
     head = ["# generated bench"] if rng.random() < 0.6 else []
+    if rng.random() < 0.15 and ab["gates"]:
+        # comment lines whose text looks like statements (a commented-out old version, notes about the io)
+        g, t, ops = rng.choice(ab["gates"])
+        other = rng.choice([x for x in ("and", "or", "nand", "nor", "xor", "not", "buf") if x != t])
+        cl = [f"# old version: {g} = {other.upper()}({', '.join(ops)})", f"#INPUT({g})", f"# OUTPUT({ops[0]})",
+              f"#{sp()}{g} = {kw(other)}({ops[0]})"]
+        for line in rng.sample(cl, rng.randint(1, 2)):
+            lines.insert(rng.randrange(len(lines) + 1), line)
     text = "\n".join(head + lines) + ("\n" if rng.random() < 0.7 else "")
     crlf = rng.random() < 0.1
     if crlf:
@@ -110,6 +123,13 @@ def gen(rng, tier):
     net = G.gen_net(rng, n_inputs=(2, 7) if big else (1, 5), n_gates=(10, 24) if big else (1, 12), types=G.swarm_types(rng),
                     max_arity=rng.randint(2, 5), constants=rng.choice((0.0, 0.6, 1.0)), name_style=rng.choice(("plain", "underscore")),
                     input_outputs=rng.choice((0.0, 0.2)), name=rng.choice(("top", "c17", "my_ckt")))
+    if rng.random() < 0.15:
+        # node names as other tools (and this library's Verilog reader) produce them
+        plain = [n for n in net["nodes"]]
+        mp = {}
+        for j, n in enumerate(rng.sample(plain, min(len(plain), rng.randint(1, 3)))):
+            mp[n] = rng.choice(("_a", "_", "a$", "b$x", "n[", "y'", "w:", "\\e")) + str(j) + rng.choice(("", "]", "$"))
+        net = G.rename(net, mp)
     return {"kind": "writer", "net": net, "peer": {"seed": rng.getrandbits(32)}}
 
 
@@ -226,8 +246,8 @@ def run(case, ctx):
     if not ref.is_lint_clean(net) or ref.is_cyclic(net) or net["bbs"] or not ref.inputs(net):
         raise Skip("precondition")
     import re
-    if any(not re.fullmatch(r"[a-zA-Z][a-zA-Z\d_]*", n) for n in net["nodes"]):
-        raise Skip("names outside the bench identifier set")
+    if any(not re.fullmatch(r"[^\s(),=#\d][^\s(),=#]*", n) for n in net["nodes"]):
+        raise Skip("names the bench syntax cannot carry (white space, parentheses, comma, '=', '#', leading digit)")
     has0 = any(v[0] == "0" for v in net["nodes"].values())
     has1 = any(v[0] == "1" for v in net["nodes"].values())
     if has0:
